@@ -637,6 +637,11 @@ class JGen:
                 "Date.prototype.toISOString=function(){LOG.push(\"toISO\");return \"iso\"};",
                 "Array.prototype[1]=\"protoelem\";",
                 "Object.prototype[\"a\"]=\"protoa\";",
+                "Object.defineProperty(Array.prototype,0,{get(){LOG.push(\"pget0\");return \"P0\"},configurable:true});",
+                "Object.defineProperty(Array.prototype,2,{get(){LOG.push(\"pget2\");return function(){}},configurable:true});",
+                "Object.defineProperty(Object.prototype,\"b\",{get(){LOG.push(\"pgetb\");return [1]},configurable:true});",
+                "Object.defineProperty(Object.prototype,\"toJSON\",{get(){LOG.push(\"OtjGet:\"+typeof this);return undefined},configurable:true});",
+                "Number.prototype.toJSON=5; String.prototype.toJSON={}; BigInt.prototype.toJSON=null;",
             ]))
     def case(self):
         self.protos()
@@ -704,6 +709,21 @@ def shared_family():
                     if sp == "1" and rp != "undefined": continue
                     out.append("JM " + hx("function mk(){ var x=%s; return [%s, %s, %s]; }" % (kind, shape, rp, sp)))
     return out
+
+# toJSON on the prototypes of primitives: looked up (GetV) only for BigInt primitives and objects; `this` is the
+# primitive itself in strict code; data method / getter / non-callable; wrappers go through the object path
+PRIM_TOJSON = []
+for _proto, _vals in (("BigInt", ["1n", "Object(2n)", "[3n]", "{a:4n}"]), ("Number", ["1", "new Number(2)", "[3]"]), ("String", ["\"s\"", "new String(\"t\")", "[\"u\"]"]),
+                      ("Boolean", ["true", "new Boolean(false)", "[false]"]), ("Symbol", ["Symbol(\"y\")", "Object(Symbol(\"z\"))", "[Symbol()]"])):
+    for _def in ("%s.prototype.toJSON=function(k){\"use strict\";LOG.push(\"tj:\"+k+\":\"+typeof this);return \"R\"+String(k)};",
+                 "%s.prototype.toJSON=function(k){LOG.push(\"tj:\"+k+\":\"+typeof this);return typeof this===\"object\"?\"boxed\":\"prim\"};",
+                 "Object.defineProperty(%s.prototype,\"toJSON\",{get(){\"use strict\";LOG.push(\"get:\"+typeof this);return function(k){return [k]}},configurable:true});",
+                 "Object.defineProperty(%s.prototype,\"toJSON\",{get(){LOG.push(\"get\");return 7},configurable:true});",
+                 "%s.prototype.toJSON=function(){return 9n};",
+                 "%s.prototype.toJSON=function(){return this};"):
+        for _v in _vals:
+            for _rp in ("undefined", "function(k,v){LOG.push(\"r:\"+k+\":\"+typeof v);return v}"):
+                PRIM_TOJSON.append("function mk(){ %s return [%s, %s]; }" % (_def % _proto, _v, _rp))
 
 J_FIXED = [
     "function mk(){ return [{a:[],b:{},c:[[]],d:[{}]}, undefined, 2]; }",
@@ -936,6 +956,7 @@ def main(ctx):
     S += SL
     J = [l for l in corpus if l.split(" ")[0] in ("J", "JF", "JM", "JFM")]
     for s in J_FIXED: J.append("JF " + hx(s))
+    for s in PRIM_TOJSON: J.append("JFM " + hx(s))
     J += shared_family()
     n_j = 1200 if quick else 15000
     for _ in range(n_j):
